@@ -17,3 +17,5 @@
 ;@ghost oprid Int
 ;@ghost optup Int
 ;@ghost nops Int
+; the log on disk holds at least one numbered record written since its last truncation (keeps the LSN high-water mark)
+;@ghost hwm Bool
